@@ -7,6 +7,7 @@ import (
 	"context"
 	"errors"
 	"fmt"
+	metav1 "k8s.io/apimachinery/pkg/apis/meta/v1"
 	"time"
 
 	lifecycle "github.com/boz/go-lifecycle"
@@ -169,6 +170,69 @@ func e15Case(seed uint64, kind string, k int, v int) Case {
 	}}
 }
 
+// e15BusyCloseCase: Close() while the controller is BUSY (a slow filter keeps it
+// inside the application of a list, of a relist, or of a watch event).  A
+// controller closed deliberately reports no failure, whatever it was doing.
+func e15BusyCloseCase(seed uint64, n int) Case {
+	when := []string{"during-relist", "during-first-list", "during-watch-event"}[n%3]
+	id := fmt.Sprintf("E15/close-while-busy/%s/%d/%d", when, seed, n)
+	return Case{ID: id, Desc: map[string]interface{}{"when": when, "n": n}, Bubble: true, Run: func(r *Res) {
+		rng := kit.NewRng(kit.Mix(seed, uint64(n)+1590))
+		core := kit.NewCore(&kit.Plan{Seed: rng.U64(), PYield: 100, PSleep: 20, MaxSleep: 60 * time.Microsecond})
+		srv := kit.NewPodServer(core)
+		for i := 0; i < 12; i++ {
+			srv.Put(kit.Pod("n0", fmt.Sprintf("p%02d", i), "", map[string]string{"l": "x"}))
+		}
+		per := time.Duration(2+rng.Intn(4)) * time.Millisecond
+		F := kit.TFN("slow-accept-all", func(metav1.Object) bool { core.Sleep(per); return true })
+		P := time.Second
+		g, err := newCtlRig(core, srv, P, F)
+		if err != nil {
+			r.Inc(err.Error())
+			return
+		}
+		sub, _ := g.ctl.Subscribe()
+		go func() {
+			for range sub.Events() {
+			}
+		}()
+		switch when {
+		case "during-first-list":
+			time.Sleep(per * time.Duration(1+rng.Intn(10))) // inside the first cache.sync
+		case "during-relist":
+			waitCh(g.ctl.Ready(), virtBound)
+			for i := 0; i < 3000 && len(srv.Lists()) < 2+n%2; i++ {
+				time.Sleep(time.Millisecond)
+			}
+			time.Sleep(per * time.Duration(1+rng.Intn(10)))
+		case "during-watch-event":
+			waitCh(g.ctl.Ready(), virtBound)
+			for i := 0; i < 5; i++ {
+				srv.Put(kit.Pod("n0", fmt.Sprintf("p%02d", i), "", map[string]string{"l": "y"}))
+			}
+			time.Sleep(per * time.Duration(1+rng.Intn(4)))
+		}
+		if !within(func() { g.ctl.Close() }) {
+			r.V("C12", "close-hang", "Close() while the controller was busy (%s) did not return", when)
+			g.cancel()
+			return
+		}
+		if !waitCh(g.ctl.Done(), virtBound) {
+			r.V("C12", "done-hang", "Close() returned but Done() is open")
+			g.cancel()
+			return
+		}
+		g.barrier()
+		r.Add("failstop-checks", 1)
+		if e := g.ctl.Error(); e != nil {
+			r.V("C14", "deliberate-close-reports-failure", "Close() while the controller was busy (%s, slow filter %v per object): Error() = %v", when, per, e)
+		}
+		g.cancel()
+		g.barrier()
+		r.Key(id)
+	}}
+}
+
 func init() {
 	register("E15", func(tier string, seed uint64) []Case {
 		var cases []Case
@@ -192,6 +256,9 @@ func init() {
 		}
 		for i := 0; i < tierPick(tier, 48, 960); i++ {
 			cases = append(cases, eRetryExpiryCase("C14", seed, i, "list-error"))
+		}
+		for i := 0; i < tierPick(tier, 30, 600); i++ {
+			cases = append(cases, e15BusyCloseCase(seed, i))
 		}
 		return cases
 	})
